@@ -396,6 +396,11 @@ theorem exec_bufExt (σ : State S) (c : Cmd S) : ResExt σ (exec σ c) := by
   | idx v i => simp only [exec]; rb; rb; rp
   | idxflat v i => simp only [exec]; rb; rb; rp
   | convat a f sr sc i => simp only [exec]; rb; rb; split; rp; exact resExt_throw _ _
+  | matmulat a ta b tb c i =>
+    simp only [exec]; rb; rb
+    cases c with
+    | none => simp only [pure, Except.pure, bind, Except.bind]; split; rp; exact resExt_throw _ _
+    | some c => simp only []; rb; simp only [pure, Except.pure, bind, Except.bind]; split; rp; exact resExt_throw _ _
   | eq a b => simp only [exec]; rb; rb; rp
   | same a b => simp only [exec]; rb; rb; rp
   | samegrad a b => simp only [exec]; rb; rb; rp
